@@ -44,6 +44,8 @@
      ArgsNotResetOnMetricChange  extra arguments of the previous metric survive a metric change
      StaleStreamCounts         a solve reports the stream rule of the previous solve
      SolveStoresDecision       a solve with a deciding metric turns the object into a fixed-stream one
+     AbsoluteRankTolerance     the rank of the other users' channel is decided with an absolute tolerance
+                               (a full-rank channel of amplitude 1e-7 is taken as rank deficient)
      PowerCachedAtConstruction the paths that divide the power equally (no water-filling, no stream
                                reduction) use sqrt(iPu) computed in the constructor               *)
 EXTENDS Integers, Sequences, FiniteSets, TLC, Emit
@@ -52,6 +54,8 @@ CONSTANTS Classes,     \* subset of {"BD", "WBD", "EBD"}
           Ks,          \* numbers of users
           Ants,        \* antennas per user (Nr_k = Nt_k = N)
           Ranks,       \* ranks of the external interference channel (>= 1)
+          Scales,      \* channel-scale regimes: decimal exponents e, every coefficient of [H | He] is multiplied by 10^e
+                       \* (path loss / units: the property is about generic full-rank channels of ANY magnitude)
           PLabels,     \* labels of PowerVal
           NvLabels,    \* labels of NoiseVal
           PeLabels,    \* labels of ExtPowerVal ("zero" = no external interference power)
@@ -76,9 +80,9 @@ MetricNames == {"None", "naive", "fixed", "capacity", "effective_throughput"}
 NoMetric == [name |-> "None", ns |-> 0, mod |-> "none", plen |-> 0]
 NoArgs   == [ns |-> 0, mod |-> "none", plen |-> 0]
 NoObj    == [cls |-> "none", K |-> 0, p |-> "na", nv |-> "na", pe |-> "na", p0 |-> "na"]
-NoChan   == [N |-> 0, rE |-> 0, intact |-> TRUE]
+NoChan   == [N |-> 0, rE |-> 0, sc |-> 0, intact |-> TRUE]
 NoLast   == [op |-> "none", kind |-> "none", n |-> 0, mname |-> "None", N |-> 0, rE |-> 0, filt |-> FALSE, onCur |-> FALSE,
-             pe |-> "na", cur |-> TRUE]
+             pe |-> "na", cur |-> TRUE, rankok |-> TRUE]
 
 BDops  == {"bd_wf", "bd_nowf", "mod_bd_wf"}
 ExtOps == {"wbd", "ebd"}
@@ -170,27 +174,31 @@ EditDict ==
 (* ---------------------------------- channels --------------------------------------------------- *)
 \* a new generic channel: N antennas per user; rE = 0 is a plain matrix (BlockDiagonalizer only),
 \* rE >= 1 a MultiUserChannelMatrixExtInt with an external interference source of that rank
-NewChannel(N, rE) ==
+\* sc: the whole matrix [H | He] is scaled by 10^sc; the noise variance given to the channel OBJECT scales with it
+\* (10^(2 sc) nv: the same scenario in other units), the object's own noise_var attribute does not.
+NewChannel(N, rE, sc) ==
   /\ "NewChannel" \in Acts /\ obj # NoObj
   /\ (rE = 0) = (obj.cls = "BD")
   /\ Sweep => (chan = NoChan)
-  /\ chan' = [N |-> N, rE |-> rE, intact |-> TRUE]
+  /\ chan' = [N |-> N, rE |-> rE, sc |-> sc, intact |-> TRUE]
   /\ last' = [last EXCEPT !.onCur = FALSE]
   /\ UNCHANGED <<obj, metric, alias>>
-  /\ Step("NewChannel", [N |-> N, rE |-> rE], "ok")
+  /\ Step("NewChannel", [N |-> N, rE |-> rE, sc |-> sc], "ok")
 
 (* ---------------------------------- solves ------------------------------------------------------ *)
 \* block_diagonalize(H) (every class inherits it), block_diagonalize_no_waterfilling(H) of the plain class,
 \* and the module-level block_diagonalize(H, K, iPu, noise_var)
 BDResult(op, c) == [op |-> op, kind |-> "all", n |-> c.N, mname |-> "None", N |-> c.N, rE |-> c.rE, filt |-> FALSE, onCur |-> TRUE,
-                    pe |-> "na", cur |-> TRUE]
+                    pe |-> "na", cur |-> TRUE, rankok |-> TRUE]
+\* deviation: the rank of the other users' channel is decided with an ABSOLUTE tolerance: a weak channel looks rank deficient
+RankMisjudged(c) == Dev.AbsoluteRankTolerance /\ c.sc < -5
 \* deviation: the paths that divide the power equally use the amplitude computed at construction
 CachedPowerStale(o) == Dev.PowerCachedAtConstruction /\ o.p0 # o.p
 SolveBD(op) ==
   /\ "SolveBD" \in Acts /\ obj # NoObj /\ chan.N > 0
   /\ op = "bd_nowf" => obj.cls = "BD"
   /\ Sweep => (last = NoLast /\ metric = NoMetric)   \* (the interplay with the metric is in the history machine)
-  /\ last' = [BDResult(op, chan) EXCEPT !.cur = ~(op = "bd_nowf" /\ CachedPowerStale(obj))]
+  /\ last' = [BDResult(op, chan) EXCEPT !.cur = ~(op = "bd_nowf" /\ CachedPowerStale(obj)), !.rankok = ~RankMisjudged(chan)]
   /\ UNCHANGED <<obj, metric, alias, chan>>
   /\ Step("SolveBD", [op |-> op, cfg |-> CfgVals(obj)], "ok")
 
@@ -206,7 +214,7 @@ ExtResult(o, m, c) ==
   LET mm == IF o.cls = "WBD" THEN NoMetric ELSE m
       r == RuleOf(mm, c.N)
   IN [op |-> IF o.cls = "WBD" THEN "wbd" ELSE "ebd", kind |-> r.kind, n |-> r.n, mname |-> mm.name,
-      N |-> c.N, rE |-> c.rE, filt |-> TRUE, onCur |-> TRUE, pe |-> o.pe, cur |-> TRUE]
+      N |-> c.N, rE |-> c.rE, filt |-> TRUE, onCur |-> TRUE, pe |-> o.pe, cur |-> TRUE, rankok |-> TRUE]
 ExtEnabled(o, m, c) == o.cls \in {"WBD", "EBD"} /\ c.N > 0 /\ c.rE > 0
                        /\ m.ns <= c.N           \* num_streams beyond the antennas is outside the quantifier
 
@@ -216,7 +224,7 @@ SolveExt ==
   /\ LET good == ExtResult(obj, metric, chan)
          stale == Dev.StaleStreamCounts /\ last.op \in ExtOps /\ last.n <= chan.N
          res == IF stale THEN [good EXCEPT !.kind = last.kind, !.n = IF last.kind = "all" THEN chan.N ELSE last.n] ELSE good
-     IN /\ last' = [res EXCEPT !.cur = ~(res.kind = "all" /\ CachedPowerStale(obj))]
+     IN /\ last' = [res EXCEPT !.cur = ~(res.kind = "all" /\ CachedPowerStale(obj)), !.rankok = ~RankMisjudged(chan)]
         /\ metric' = IF Dev.SolveStoresDecision /\ good.kind = "decided" THEN [NoMetric EXCEPT !.name = "fixed", !.ns = 1] ELSE metric
   /\ UNCHANGED <<obj, alias, chan>>
   /\ Step("SolveExt", [cfg |-> CfgVals(obj)], "ok")
@@ -249,7 +257,7 @@ Scribble ==
 
 DoConstruct == \E c \in Configs : Construct(c)
 DoSetMetric == obj.cls = "EBD" /\ \E name \in MetricNames \cup {"lala"} : \E a \in Supplied(name) : SetMetric(name, a)
-DoNewChannel == obj # NoObj /\ \E N \in Ants : \E rE \in Ranks \cup {0} : NewChannel(N, rE)
+DoNewChannel == obj # NoObj /\ \E N \in Ants : \E rE \in Ranks \cup {0} : \E sc \in Scales : NewChannel(N, rE, sc)
 DoSolveBD == \E op \in BDops : SolveBD(op)
 DoSetAttr == /\ obj # NoObj /\ ~Sweep
              /\ \/ \E lab \in PLabels : SetAttr("iPu", lab)
@@ -292,7 +300,7 @@ TypeOK ==
   /\ obj = NoObj \/ [cls |-> obj.cls, K |-> obj.K, p |-> obj.p, nv |-> obj.nv, pe |-> obj.pe] \in Configs
   /\ metric \in [name : MetricNames, ns : 0..3, mod : {"none"} \cup Mods, plen : {0} \cup PLens]
   /\ alias \in BOOLEAN
-  /\ chan \in [N : {0} \cup Ants, rE : {0} \cup Ranks, intact : BOOLEAN]
+  /\ chan \in [N : {0} \cup Ants, rE : {0} \cup Ranks, sc : {0} \cup Scales, intact : BOOLEAN]
   /\ last.op \in {"none", "whiten"} \cup BDops \cup ExtOps /\ last.kind \in {"none", "all", "fixed", "decided"}
   /\ obj.cls # "EBD" => metric = NoMetric
 
@@ -305,6 +313,8 @@ MetricArgsConsistent ==
 ChannelIntact == chan.intact
 \* every result was computed with the attribute values current at the time of the call
 ResultObeysCurrentAttributes == last.cur
+\* the number of streams / the null space follow the true rank of the channel, whatever its magnitude
+RankIsScaleFree == last.rankok
 NoSharedDict == ~alias
 
 PowerRules == {"PowerEqPerUser", "PowerReachedByOne"}
